@@ -192,3 +192,4 @@ def st5_idempotent(ctx, rep):
                 blocking = [e for e in p.calls() if e.site is not None and not e.inlined and (A.is_send_wrapper_call(e.site) or e.ck in POOL_JOIN)]
                 rep.check(not blocking, R, "second-close-does-nothing:" + short(b.path), ctx.where(b), "already closed: no queue operation", "already closed but performs %s" % [e.ck for e in blocking])
         rep.floor(R, "already-closed paths", n, 1, ctx.where(b))
+
